@@ -115,6 +115,7 @@ let judge _id (c : cursor) (r : cursor) : bool * string =
   let site = if is_mcts then "MCTS::simulate" else "POMCP::simulate" in
   let tree = ref node0 in
   let prev_itree = ref node0 in
+  let pool : ev list ref = ref [] in
   let deferred : (string * string * string) option ref = ref None in
   let defer cl st d = match !deferred with None -> deferred := Some (cl, st, d); last_deferred := Some (cl, st, d) | Some _ -> () in
   let nontrivial = ref false in
@@ -193,6 +194,20 @@ let judge _id (c : cursor) (r : cursor) : bool * string =
             if not (q_close ~atol:(q_of_ints 1 100000000) ~rtol:(q_of_ints 1 100000000) expect (aV an)) then
               oracle_fail "value_is_mean" site (Printf.sprintf "%s: root action %d: V=%s but the mean of the returns sampled through it is %s" opsite a (string_of_q (aV an)) (string_of_q expect))
           end) (acts itree)
+    end;
+    (* particles_consistent on the dumped tree: every particle below (action i, observation o) is
+       the next state of a logged call with that action and observation (pool: all calls of the case) *)
+    pool := !pool @ List.map (fun x -> x.e) evs;
+    if not is_mcts then begin
+      let rec chk (n : node) =
+        List.iteri (fun i an ->
+            List.iter (fun (o, ch) ->
+                List.iter (fun p ->
+                    if not (List.exists (fun e -> ioN e.ea = i && ioN e.eo = ioN o && ioN e.es1 = ioN p) !pool) then
+                      oracle_fail "particles_consistent" site (Printf.sprintf "%s: particle %d under (a=%d,o=%d) was never sampled with that action and observation" opsite (ioN p) i (ioN o)))
+                  (bel ch);
+                chk ch) (kids an)) (acts n) in
+      chk itree
     end;
     let depth_bad = not (steps_okb (nat_of_int h) (List.map nat_of_int steps_i)) in
     if depth_bad then
